@@ -1,16 +1,11 @@
 (** The link between the correspondence evaluator of C08 and the theorems: on a well-formed
-    case, agreement of the implementation with the repaired model implies the token-safety
-    part of the executable spec on the implementation's own observations.
-
-    PARTIAL.  The full statement would be
-      [wf_case c -> agree v_fixed c = true -> spec_ok c = true].
-    Gaps: (a) [run_conv_spec] after an incremental run that ends OK although a scripted fault
-    was armed (it never fired): convergence is proved for fault-free runs (C08_converge) and
-    for every completed fullsync (C08_fullsync_complete) only; (b) [run_idem_spec] compares the
-    length of the sink's change feed, which [agree] deliberately does not compare (it depends
-    on the in-batch duplicate rule of the dataset write, finding F02a of property C02). *)
+    case, agreement of the implementation with the repaired model implies the executable spec
+    (token safety after every run, convergence after every run that ends OK, an incremental
+    re-run with nothing new changes nothing, the sink only holds versions of its sources) on the
+    implementation's own observations. *)
 From Coq Require Import List ZArith NArith Bool Arith Lia.
-From DH Require Import Lib.CheckLib Model.Pipeline Proofs.PipelineProofs Check.C08Check.
+From DH Require Import Lib.CheckLib Model.Pipeline Proofs.PipelineProofs.
+From DH Require Import Proofs.PipelineProofs2 Check.C08Check.
 Import ListNotations.
 
 Lemma zlist_eqb_eq l1 l2 : zlist_eqb l1 l2 = true <-> l1 = l2.
@@ -110,6 +105,7 @@ Lemma run_safe_spec_of st F r out :
   run_safe_spec F r = true.
 Proof.
   intros [Hl Hs] [HL HP] Ha. unfold run_agree in Ha.
+  apply andb_true_iff in Ha. destruct Ha as [Ha _].
   apply andb_true_iff in Ha. destruct Ha as [Ha Hlens].
   apply andb_true_iff in Ha. destruct Ha as [Ha Hview].
   apply andb_true_iff in Ha. destruct Ha as [_ Htok].
@@ -156,4 +152,168 @@ Proof.
   { apply (list_eqb_eq feed_eqb); [|exact Hsrc]. intros x y. apply list_eqb_eq. apply version_eqb_eq. }
   unfold spec_safe. rewrite <- E.
   eapply agree_ops_safe; [apply init_good | exact Hwf | exact Ha].
+Qed.
+
+(** ** The full spec *)
+
+Lemma view_eqb_of a b : (forall i, cur a i = cur b i) -> view_eqb a b = true.
+Proof.
+  intros H. unfold view_eqb. apply forallb_forall. intros i _. apply opt_eqb_eq. apply H.
+Qed.
+
+Lemma out_code_ok o : out_code o = 0%N -> o = OOk.
+Proof. destruct o; cbn; congruence. Qed.
+
+Lemma prefixK_cons x a y F : prefixK (x :: a) (y :: F) -> (exists w, y = x ++ w) /\ prefixK a F.
+Proof.
+  intros [Hl H]. split; [exact (H 0)|]. split; [cbn in Hl; lia|]. intros k. exact (H (S k)).
+Qed.
+
+Lemma cuts_prefix : forall a F, prefixK a F ->
+  cuts F (map (fun f : list version => Z.of_nat (length f)) a) = a.
+Proof.
+  induction a as [|x a IH]; intros [|y F] H; try (destruct H as [Hl _]; cbn in Hl; lia); try reflexivity.
+  destruct (prefixK_cons _ _ _ _ H) as ((w & ->) & H'). cbn [map cuts].
+  rewrite Nat2Z.id, firstn_prefix, (IH _ H'). reflexivity.
+Qed.
+
+Lemma In_nth_srcs (srcs : list (list version)) s : In s srcs -> exists k, k < length srcs /\ nth k srcs [] = s.
+Proof. intros H. destruct (In_nth _ _ [] H) as (k & Hk & E). eauto. Qed.
+
+(** what [run_agree] says about the observation of a run *)
+Definition obs_of (st : state) (r : trun) : Prop :=
+  (forall i, cur (st_sink st) i = cur (tr_sink r) i)
+  /\ map tok_code (st_tok st) = tr_tok r
+  /\ map (fun f : list version => Z.of_nat (length f)) (st_srcs st) = tr_srclens r
+  /\ Z.of_nat (length (st_sink st)) = tr_sinklen r.
+
+Lemma run_agree_obs st out r :
+  run_agree st out r = true ->
+  obs_of st r /\ exists o, out = Some o /\ out_code o = tr_out r.
+Proof.
+  unfold run_agree. intros Ha.
+  apply andb_true_iff in Ha. destruct Ha as [Ha Hsl].
+  apply andb_true_iff in Ha. destruct Ha as [Ha Hlens].
+  apply andb_true_iff in Ha. destruct Ha as [Ha Hview].
+  apply andb_true_iff in Ha. destruct Ha as [Hout Htok].
+  split.
+  - split; [now apply view_eqb_cur|]. split; [now apply zlist_eqb_eq|]. split; [now apply zlist_eqb_eq|].
+    now apply Z.eqb_eq.
+  - destruct out as [o|]; [|discriminate]. exists o. split; [reflexivity|]. now apply N.eqb_eq.
+Qed.
+
+Lemma conv_spec_of st F r :
+  converged st -> (tr_full r = true -> foreign_deleted st) -> prefixK (st_srcs st) F -> obs_of st r ->
+  forallb3 (fun f n tz => conv1_b (firstn (Z.to_nat n) f) tz (tr_sink r)) F (tr_srclens r) (tr_tok r)
+  && (if tr_full r then foreign_deleted_b (cuts F (tr_srclens r)) (tr_sink r) else true) = true.
+Proof.
+  intros [Hl Hc] Hfor Hp (Hv & Htok & Hlens & _). pose proof Hp as [HL HP].
+  apply andb_true_iff. split.
+  - rewrite <- Hlens, <- Htok.
+    apply (forallb3_nth _ [] (Z.of_nat (length (@nil version))) (tok_code None)).
+    + now rewrite map_length.
+    + rewrite !map_length. congruence.
+    + intros k Hk.
+      rewrite (map_nth (fun f : list version => Z.of_nat (length f))), (map_nth tok_code).
+      destruct (HP k) as (w & Ew). rewrite Ew, Nat2Z.id, firstn_prefix.
+      assert (Hk' : k < length (st_srcs st)) by lia.
+      destruct (Hc k Hk') as [Ht Hcur]. rewrite Ht. unfold conv1_b. cbn [tok_code].
+      apply andb_true_iff. split; [apply Z.eqb_refl|].
+      apply forallb_forall. intros i Hi. apply opt_eqb_eq. rewrite <- Hv. now apply Hcur.
+  - destruct (tr_full r); [|reflexivity]. specialize (Hfor eq_refl).
+    rewrite <- Hlens, (cuts_prefix _ _ Hp). unfold foreign_deleted_b.
+    apply forallb_forall. intros i _. rewrite <- Hv.
+    destruct (existsb (fun s => zmem i (ids s)) (st_srcs st)) eqn:Ex.
+    + destruct (cur (st_sink st) i); reflexivity.
+    + assert (Hno : forall k, ~ In i (ids (nth k (st_srcs st) []))).
+      { intros k Hin. destruct (Nat.lt_ge_cases k (length (st_srcs st))) as [Hk|Hk].
+        - assert (Hx : existsb (fun s => zmem i (ids s)) (st_srcs st) = true).
+          { apply existsb_exists. exists (nth k (st_srcs st) []). split; [now apply nth_In | now apply zmem_In]. }
+          congruence.
+        - rewrite nth_overflow in Hin by assumption. destruct Hin. }
+      specialize (Hfor i Hno). destruct (cur (st_sink st) i) as [w|]; [|reflexivity].
+      cbn [orb]. exact Hfor.
+Qed.
+
+Lemma origin_spec_of owner st F r :
+  owned owner (st_srcs st) -> orig owner (st_srcs st) (st_sink st) ->
+  prefixK (st_srcs st) F -> obs_of st r -> run_origin_spec F r = true.
+Proof.
+  intros Hown Ho Hp (Hv & _ & Hlens & _). unfold run_origin_spec.
+  rewrite <- Hlens, (cuts_prefix _ _ Hp). apply forallb_forall. intros i _. rewrite <- Hv.
+  destruct (cur (st_sink st) i) as [w|] eqn:E; [|reflexivity].
+  apply forallb_forall. intros cut Hcut.
+  destruct (zmem i (ids cut)) eqn:Z; [|reflexivity]. cbn [negb orb].
+  apply zmem_In in Z. destruct (In_nth_srcs _ _ Hcut) as (k & Hk & <-).
+  destruct (In_ids_inv _ _ Z) as (x & Hx & Hxi).
+  destruct (cur_some _ _ _ E) as [Hwi _].
+  assert (Hok : owner (v_id w) = k) by (rewrite Hwi, <- Hxi; now apply Hown).
+  apply existsb_exists. exists w. split; [|now apply version_eqb_eq].
+  specialize (Ho i w E). unfold okv in Ho. rewrite Hok in Ho. now apply Ho.
+Qed.
+
+(** what is known about the state when the previous operation was a run *)
+Definition prev_link (st : state) (prev : option trun) : Prop :=
+  match prev with
+  | None => True
+  | Some p => obs_of st p /\ (tr_out p = 0%N -> at_end (st_srcs st) (st_tok st))
+  end.
+
+Lemma agree_ops_spec owner n c : forall ops st stf prev,
+  good owner n st -> orig owner (st_srcs st) (st_sink st) ->
+  Forall (wf_op owner n) (map (op_of c) ops) ->
+  agree_ops v_fixed c st ops = (true, stf) -> prev_link st prev ->
+  spec_ops (st_srcs stf) prev ops = true.
+Proof.
+  induction ops as [|o ops IH]; intros st stf prev Hg Ho Hwf H Hlink; [reflexivity|].
+  cbn [agree_ops] in H. cbn [map] in Hwf. inversion Hwf as [|? ? Hwo Hops]; subst.
+  destruct (step v_fixed st (op_of c o)) as [st' out] eqn:Hstep.
+  destruct (agree_ops v_fixed c st' ops) as [rest stf'] eqn:Hr.
+  injection H as Hb <-. apply andb_true_iff in Hb. destruct Hb as [Hok ->].
+  assert (Hg' : good owner n st') by (eapply (step_good owner n v_fixed eq_refl); eauto).
+  assert (Ho' : orig owner (st_srcs st') (st_sink st')) by exact (step_orig owner n v_fixed eq_refl st _ st' out Hg Ho Hwo Hstep).
+  pose proof (agree_ops_prefix _ _ _ _ _ _ Hr) as Hp.
+  destruct o as [k es|es|r]; cbn [spec_ops].
+  - apply (IH st' stf' None); auto. exact I.
+  - apply (IH st' stf' None); auto. exact I.
+  - cbn [op_of step] in Hstep, Hwo.
+    destruct (run_job v_fixed st (rcfg_of c r)) as [st1 o1] eqn:Hrun. injection Hstep as -> <-.
+    destruct (run_agree_obs _ _ _ Hok) as (Hobs & o & [= <-] & Hcode).
+    assert (Hconv : tr_out r = 0%N -> converged st' /\ (tr_full r = true -> foreign_deleted st')).
+    { intros E. rewrite <- Hcode in E. apply out_code_ok in E. subst o1.
+      destruct (run_ok_converged owner n v_fixed eq_refl st _ st' Hg Hwo Hrun) as (C & _ & F).
+      split; [exact C | exact F]. }
+    apply andb_true_iff. split.
+    + unfold run_spec. apply andb_true_iff. split; [apply andb_true_iff; split; [apply andb_true_iff; split|]|].
+      * eapply run_safe_spec_of; [apply Hg' | exact Hp | exact Hok].
+      * unfold run_conv_spec. destruct (N.eqb (tr_out r) 0) eqn:E0; [|reflexivity].
+        apply N.eqb_eq in E0. destruct (Hconv E0) as [C F]. now apply conv_spec_of with st'.
+      * unfold run_idem_spec. destruct prev as [p|]; [|reflexivity].
+        destruct (N.eqb (tr_out p) 0 && zlist_eqb (tr_srclens p) (tr_srclens r) && negb (tr_full r)) eqn:Cnd;
+          [|reflexivity].
+        apply andb_true_iff in Cnd. destruct Cnd as [Cnd Hnf]. apply andb_true_iff in Cnd. destruct Cnd as [Hpo _].
+        apply N.eqb_eq in Hpo. apply negb_true_iff in Hnf.
+        destruct Hlink as [(Hv1 & Ht1 & _ & Hs1) Hend]. specialize (Hend Hpo).
+        destruct (run_idem_any owner n v_fixed st (rcfg_of c r) Hend (proj1 Hg) Hwo Hnf) as (o2 & Hrun2).
+        rewrite Hrun in Hrun2. injection Hrun2 as -> _.
+        destruct Hobs as (Hv2 & Ht2 & _ & Hs2).
+        apply andb_true_iff. split; [apply andb_true_iff; split|].
+        -- apply view_eqb_of. intros i. now rewrite <- Hv1, <- Hv2.
+        -- apply zlist_eqb_eq. congruence.
+        -- apply Z.eqb_eq. congruence.
+      * eapply origin_spec_of; [apply Hg' | exact Ho' | exact Hp | exact Hobs].
+    + apply (IH st' stf' (Some r)); auto. split; [exact Hobs|].
+      intros E. destruct (Hconv E) as [[Hl Hc] _]. split; [exact Hl|]. intros k Hk. now apply Hc.
+Qed.
+
+Theorem agree_fixed_spec c :
+  wf_case c -> agree v_fixed c = true -> spec_ok c = true.
+Proof.
+  intros (owner & Hwf) H. unfold agree in H.
+  destruct (agree_ops v_fixed c (init_state (c_members c)) (c_ops c)) as [ok stf] eqn:Ha.
+  apply andb_true_iff in H. destruct H as [-> Hsrc].
+  assert (E : st_srcs stf = o_srcs c).
+  { apply (list_eqb_eq feed_eqb); [|exact Hsrc]. intros x y. apply list_eqb_eq. apply version_eqb_eq. }
+  unfold spec_ok. rewrite <- E.
+  eapply agree_ops_spec; [apply init_good | apply init_orig | exact Hwf | exact Ha | exact I].
 Qed.
